@@ -201,9 +201,12 @@ static void run_ot(const NaorPinkasEOTP &ot, const Grp &P, Variant v, const std:
 	auto add = [&](const std::string &n, size_t idx, const Z &val) { Mut m; m.name = n; m.fm = fm; m.fm[idx] = val; muts.push_back(m); };
 	Z nonmem; do { gen_below(nonmem.w(), P.p); } while (zcmpui(nonmem, 2) < 0 || member(P, nonmem));
 	Z zero(0), one(1), pp(P.p), pm1; mpz_sub_ui(pm1.w(), P.p, 1);
-	size_t zi = 2 + (fm.size() > 3 ? gen().below(fm.size() - 2) : 0);
-	for (size_t idx : { (size_t)0, (size_t)1, zi }) {
-		std::string f = idx == 0 ? "x" : idx == 1 ? "y" : "z";
+	// every z position for N <= 3 (so that 1-of-2 always sees both z0 and z1 corrupted), a random one otherwise
+	std::vector<size_t> idxs = { 0, 1 };
+	if (fm.size() <= 5) for (size_t i = 2; i < fm.size(); i++) idxs.push_back(i);
+	else idxs.push_back(2 + gen().below(fm.size() - 2));
+	for (size_t idx : idxs) {
+		std::string f = idx == 0 ? "x" : idx == 1 ? "y" : "z" + std::to_string(idx - 2);
 		add(f + "=0", idx, zero); add(f + "=p", idx, pp); add(f + "=p-1", idx, pm1); add(f + "=nonmember", idx, nonmem);
 		{ Z t; mpz_add(t.w(), fm[idx], P.p); add(f + "=v+p", idx, t); }
 		{ Z t; mpz_sub(t.w(), P.p, fm[idx]); add(f + "=p-v", idx, t); }
